@@ -290,6 +290,12 @@ SCENARIOS = [
         "P": {"inputs": {"i": D()}, "outputs": {"o": {"info": "rule_in:i", "deps": ["i"]}}},
         "C2": {"inputs": {"i": D(False)}}},
      "links": [("X", "o", "P", "i"), ("P", "o", "C1", "i", "S"), ("P", "o", "C2", "i", "S")]},
+    {"name": "late_info_first_input", "comps": {
+        "P": {"outputs": {"o": {"info": "declared", "deps": []}}},
+        "X": {"inputs": {"in1": D(False), "in2": D(False)},
+              "outputs": {"o": {"info": "rule_in:in2", "deps": []}}},
+        "S": {"inputs": {"i": D(False)}, "outputs": {"o": {"info": "rule_in:i", "deps": []}}}},
+     "links": [("P", "o", "X", "in2"), ("X", "o", "S", "i"), ("S", "o", "X", "in1")]},
     {"name": "partly_stuck", "comps": {
         "A": {"inputs": {"i": D()}, "outputs": {"o": {"info": "declared", "deps": ["i"]}}},
         "B": {"inputs": {"i": D()}, "outputs": {"o": {"info": "declared", "deps": ["i"]}}},
@@ -316,7 +322,7 @@ EXPLANATION = (
     "every single ConnectHelper.connect call is checked for status vs. observed progress. The dependency shapes are a "
     "finite catalogue -- the solver's part is path feasibility, the orders, and the start-time arithmetic."
 )
-ASSUMPTIONS = ["catalogue of 13 dependency scenarios (incl. links branching behind a shared pass-through adapter and an adapter nobody reads from) (vf/props/c06.py SCENARIOS), up to 4 components"]
+ASSUMPTIONS = ["catalogue of 14 dependency scenarios (incl. links branching behind a shared pass-through adapter and an adapter nobody reads from) (vf/props/c06.py SCENARIOS), up to 4 components"]
 
 
 def families(tier):
